@@ -281,3 +281,14 @@ func init() {
 		}
 	}
 }
+
+func init() {
+	exploreExtra["sortedinv"] = func(p *Prog) {
+		c := NewCtx(p, "X", "quick")
+		c.quiet = true
+		ruleSortedInvariant(c, "SORTED-INVARIANT", p.ModulePkgs(), 0)
+		for _, o := range c.Obls {
+			fmt.Printf("%s\t%s\t%v\t%s\n", o.Pos, o.Instance, o.OK, short(o.Msg, 200))
+		}
+	}
+}
